@@ -1,7 +1,7 @@
 (* C10 - Outages block a component for exactly their duration, then release it. *)
 From Coq Require Import List ZArith Bool.
 From JSL Require Import Base.Res Base.ListX SM.Types SM.Util SM.Handler SM.Step SM.Inv
-  SMP.Post SMP.PostApply SMP.Offers SMP.Clock SM.Middleware SM.Example SMP.StepInv SMP.Clock SMP.Outages.
+  SMP.Post SMP.PostApply SMP.Offers SMP.Clock SM.Middleware SM.Example SMP.StepInv SMP.Clock SMP.Outages SM.Events SMP.Reflect SMP.LiftProv SMP.EventsRun.
 From JSL Require Import SM.Events SMP.SampledOk.
 Import ListNotations.
 
@@ -130,3 +130,17 @@ Theorem C10_sampling_clause_holds_of_the_model :
     new_outage_states sigma now sto cs os = Ok (outs, sto') -> sampled_ok now cs os outs = true.
 Proof. exact new_outage_states_sampled_ok. Qed.
 Print Assumptions C10_sampling_clause_holds_of_the_model.
+
+(* over whole runs of every instance: at every WORKING -> OUTAGE of every micro-log the new outage records satisfy the sampling
+   clause for the machine's configured outages (sampled_ok: started exactly when due for a deterministic frequency, exact
+   length for a deterministic duration, untouched otherwise), the machine is blocked for exactly the longest active one and
+   the operation's end extended by it (ev_machine_outage); releases remember the ends (ev_machine_release,
+   ev_transport_release) *)
+Theorem C10_outage_events_hold_along_every_run :
+  forall (sigma : oracle) (i : inst) (fuel : nat) (x0 : state) (joker0 : Z) (ta : bool) (r : result) (m : mw)
+         (a : Z) (r' : result) (m' : mw) (lg : mlog),
+    inst_nonneg_b i = true ->
+    clock_b x0 = true -> wfs_b i x0 = true -> fresh2_b i x0 = true -> nodep_b x0 = true -> pre_ok_b x0 = true ->
+    reach sigma i fuel x0 joker0 ta r m -> mw_step sigma i fuel r m a = MOk r' m' lg -> chain_events i (r_x r) lg.
+Proof. intros sigma i fuel x0 joker0 ta r m a r' m' lg Hnn. apply run_events_ok; auto. Qed.
+Print Assumptions C10_outage_events_hold_along_every_run.
